@@ -569,17 +569,21 @@ def run_asan(ctx, cases, jobs=8):
 
 
 # =========================================================================================== checker
+def _crash_text(o):
+    d = str(o.get("detail", ""))
+    head = ""
+    for line in d.splitlines():
+        if "ERROR: AddressSanitizer" in line or "SUMMARY" in line:
+            head = line.strip()
+            break
+    return "%s %s" % (o["crash"], head or d.strip()[-300:])
+
+
 def _asan_verdict(o):
     if o is None:
         return "ASan run produced no result for this case"
     if "crash" in o:
-        d = str(o.get("detail", ""))
-        head = ""
-        for line in d.splitlines():
-            if "ERROR: AddressSanitizer" in line or "SUMMARY" in line:
-                head = line.strip()
-                break
-        return "address-sanitised build: %s %s" % (o["crash"], head or d[:300])
+        return "address-sanitised build: " + _crash_text(o)
     if str(o.get("status", "")).startswith("crash:"):
         return "address-sanitised build: child of the owner's impl crashed: " + o["status"][:300]
     return None
@@ -593,8 +597,8 @@ def check(ctx, cases, outs):
         v = None
         if not isinstance(o, dict) or "crash" in o:
             verdicts[ci] = "crash in the %s build: %s" % (
-                "address-sanitised" if ctx.stage_info.get("asan") else "plain",
-                (_asan_verdict(o) if isinstance(o, dict) else "no output"))
+                "address-sanitised" if ctx.stage_info.get("asan") else "plain (-O2)",
+                (_crash_text(o) if isinstance(o, dict) else "no output"))
             continue
         if "exc" in o:
             verdicts[ci] = "C19 harness error in impl: %s %s" % (o["exc"], o.get("msg", ""))
